@@ -7,7 +7,7 @@ package wal
 import (
 	"context"
 	"fmt"
-	"io"
+	"io/ioutil"
 	"strings"
 	"time"
 
@@ -266,18 +266,15 @@ func (w *WAL) read(ctx context.Context, token string, channels *walChannels) {
 	defer w.releaseConnection() // concurrency control
 	r, err := w.walStore.Get(ctx, token)
 	w.l.Debug("Read token", zap.String("token", token))
-	defer r.Close()
 	if err != nil {
 		channels.oops <- err
 		return
 	}
-	b := make([]byte, 1024)
-	for {
-		l, e := r.Read(b)
-		if e == io.EOF {
-			b = b[:l]
-			break
-		}
+	defer r.Close()
+	b, err := ioutil.ReadAll(r)
+	if err != nil {
+		channels.oops <- fmt.Errorf("token: %s, err: %s", token, err)
+		return
 	}
 	entry, err := model.UnmarshalWAL(b)
 	if err != nil {
